@@ -1332,7 +1332,16 @@ fn table() -> Vec<Ty> {
     t
 }
 
+include!("cast_ctor.rs");
+
 fn main() {
+    if flag("--ctor") {
+        let mut rec = Rec::create(&arg_or("--out", "-"));
+        run_ctor(&mut rec);
+        let n = rec.finish();
+        eprintln!("cast --ctor: {} events", n);
+        return;
+    }
     let tab = table();
     if flag("--list") {
         for t in &tab { println!("{}\t{}\t{}", t.name, t.fam, t.n); }
